@@ -69,6 +69,7 @@ type FuncContract struct {
 	Ens     []Clause
 	Inv     map[int][]Clause
 	Dec     map[int][]Clause
+	IterEnd map[int][]Clause // iterend <loop>: holds at the end of every iteration (old() = start of that iteration)
 	Assigns []string // heap key patterns; nil = inferred
 	HasAssigns bool
 	Pure    bool
@@ -255,8 +256,11 @@ func ParseContractsFile(path string) (*Contracts, error) {
 			} else {
 				cur.Ens = append(cur.Ens, c)
 			}
-		case "invariant", "decreases":
+		case "invariant", "decreases", "iterend":
 			props, r := parseProps(rest)
+			if cur == nil && kw == "iterend" {
+				return nil, fail(fmt.Errorf("iterend outside function contract"))
+			}
 			if cur != nil {
 				idxs, r2 := splitWord(r)
 				k, err := strconv.Atoi(idxs)
@@ -276,6 +280,11 @@ func ParseContractsFile(path string) (*Contracts, error) {
 				c := Clause{Kind: kw, Props: props, Expr: e, Src: r3, Line: ln, Loop: k, Label: label}
 				if kw == "invariant" {
 					cur.Inv[k] = append(cur.Inv[k], c)
+				} else if kw == "iterend" {
+					if cur.IterEnd == nil {
+						cur.IterEnd = map[int][]Clause{}
+					}
+					cur.IterEnd[k] = append(cur.IterEnd[k], c)
 				} else {
 					cur.Dec[k] = append(cur.Dec[k], c)
 				}
